@@ -104,6 +104,16 @@ struct ChaosRun : NodeEnv {
         else if (k == "readerr") { if (o.arg(1)) S().readErr = (int)o.arg(0) % 4; else S().readEmpty = (int)o.arg(0) % 4; cov.hit("F6-can-read-error"); }
         else if (k == "nvmfault") { if (o.arg(0)) { S().nvmWriteFaultAt = (int64_t)S().nvmWrites + o.arg(1) % 3; S().nvmWriteShort = (uint32_t)o.arg(2) % 8; cov.hit("F8-nvm-short-write"); } else { S().nvmReadFaultAt = (int64_t)S().nvmReads + o.arg(1) % 3; S().nvmReadShort = (uint32_t)o.arg(2) % 8; cov.hit("F9-nvm-short-read"); } }
         else if (k == "init") { for (auto &b : cbuf) { free(b); b = nullptr; } appTimers.clear(); boot(false); cov.hit("F10-power-cycle"); if (o.arg(0)) { w.cur = 0; CONodeStart(N()); } }
+        else if (k == "cdlg") { // the node's SDO client against a scripted, possibly hostile server: request, initiate answer, then one frame per control byte
+            CO_NODE *n = N(); CO_CSDO *cs = COCSdoFind(n, (uint8_t)(o.arg(0) % CO_CSDO_N)); if (!cs) return; int ci = (int)(cs - n->CSdo); bool up = o.arg(1) != 0;
+            uint32_t size = (uint32_t)o.arg(2) % 600 + 1; uint8_t *nb = (uint8_t *)malloc(size); memset(nb, 0x5A, size); uint32_t key = CO_DEV((uint16_t)o.arg(3), (uint8_t)(o.arg(3) >> 16));
+            w.cur = 0; CO_ERR e = up ? COCSdoRequestUpload(cs, key, nb, size, doneCb, (uint32_t)o.arg(4) % 100) : COCSdoRequestDownload(cs, key, nb, size, doneCb, (uint32_t)o.arg(4) % 100);
+            if (e != CO_ERR_NONE) { free(nb); return; } free(cbuf[ci]); cbuf[ci] = nb; cov.hit(up ? "client-dialogue-upload" : "client-dialogue-download");
+            uint32_t rxid = cs->RxId; Frame f; f.id = rxid; f.dlc = 8; f.d[0] = (uint8_t)o.arg(5); f.d[1] = (uint8_t)o.arg(3); f.d[2] = (uint8_t)(o.arg(3) >> 8); f.d[3] = (uint8_t)(o.arg(3) >> 16);
+            uint32_t ann = (uint32_t)((int64_t)size + o.arg(6)); f.d[4] = (uint8_t)ann; f.d[5] = (uint8_t)(ann >> 8); f.d[6] = (uint8_t)(ann >> 16); f.d[7] = (uint8_t)(ann >> 24);
+            w.rx(0, f); w.canproc(0); checkTx(); cov.frames_in++;
+            for (size_t i = 0; i < o.b.size() && v.ok; i++) { Frame g; g.id = rxid; g.dlc = 8; g.d[0] = o.b[i]; for (int j = 1; j < 8; j++) g.d[j] = (uint8_t)(i * 7 + (size_t)j); w.rx(0, g); w.canproc(0); checkTx(); cov.frames_in++; }
+        }
         else if (k == "sess") { // mutated conformant dialogue: a reference session whose frames are dropped / repeated / changed
             int act = (int)o.arg(0);
             if (act == 0 || !sessActive) { Session s2; const SdoObj &ob = sd.objs[(size_t)o.arg(1) % sd.objs.size()]; s2.idx = ob.idx; s2.sub = ob.sub; s2.upload = o.arg(2) & 1; s2.mode = (int)(o.arg(2) >> 1) % 3; s2.announce = o.arg(2) & 8; uint32_t len = (uint32_t)o.arg(3) % 4100 + 1; if (!s2.upload) { if (s2.mode == M_EXP && len > 4) s2.mode = M_SEG; s2.payload.assign(len, (uint8_t)o.arg(3)); } s2.reqBlk = (uint8_t)(o.arg(3) % 127 + 1); s2.srv = (int)(o.arg(2) >> 4) % CO_SSDO_N; sess = s2; sessActive = true; }
@@ -168,6 +178,10 @@ Plan gen_chaos(Rng &r, bool thorough) {
             Frame f; f.dlc = 8; f.d[0] = up ? r.pick<uint8_t>({0xA2, 0xA2, 0xA1, 0xA3}) : r.pick<uint8_t>({0xC1, 0xC5, 0xDD, 0xD9, 0x81, 0x7F, 0xFF}); f.d[1] = r.pick<uint8_t>({0, 1, 2, 63, 126, 127, 128}); f.d[2] = r.pick<uint8_t>({127, 1, 0, 64});
             o = Op("rx", {(int64_t)(0x600u + nid), 8, 1}, std::vector<uint8_t>(f.d, f.d + 8)); }
         else if (c < 36) { o = Op("sess", {6, 0, 0, r.pick<int64_t>({1, 5, 125, 126, 127, 128, 129, 199})}); }
+        else if (c < 38 && r.chance(1, 2)) { // SDO client dialogue: mostly well-formed segments, sometimes more data than announced, wrong toggles, stray commands
+            bool up = r.chance(2, 3); int64_t size = r.chance(1, 2) ? r.range(5, 40) : r.range(1, 600); int nseg = (int)((size + 6) / 7) + (int)r.range(-1, 3); if (nseg < 0) nseg = 0; if (nseg > 100) nseg = 100;
+            o = Op("cdlg", {(int64_t)r.below(2), up ? 1 : 0, size - 1, (int64_t)(0x2000 + r.below(0x300)) | (int64_t)r.below(3) << 16, (int64_t)r.pick<int>({0, 5, 50}), up ? r.pick<int64_t>({0x41, 0x41, 0x41, 0x41, 0x40, 0x43, 0x4F, 0x42, 0x80}) : r.pick<int64_t>({0x60, 0x60, 0x60, 0x80, 0x20}), r.pick<int64_t>({0, 0, 0, 1, -1, 7, -7, 1000, 0xFFFFFFFFll, 0x7FFFFFFF})});
+            for (int j = 0; j < nseg; j++) { uint8_t t = (uint8_t)((j & 1) << 4); uint8_t cb = up ? (uint8_t)(t | (r.chance(1, 6) ? r.below(8) << 1 : 0) | ((j == nseg - 1 && r.chance(2, 3)) || r.chance(1, 20) ? 1 : 0)) : (uint8_t)(0x20 | t); if (r.chance(1, 15)) cb ^= 0x10; if (r.chance(1, 30)) cb = r.byte(); o.b.push_back(cb); } }
         else if (c < 45) { o = Op("sess", {(int64_t)(r.chance(1, 5) ? 0 : r.chance(2, 3) ? 1 : r.range(2, 5)), (int64_t)r.below(256), (int64_t)r.below(256), (int64_t)r.pick<int64_t>({0, 3, 6, 7, 13, 100, 888, 889, 895, 1777, 3999, (int64_t)r.below(4100)})}); }
         else if (c < 53) { Frame f; for (int j = 0; j < 8; j++) f.d[j] = r.byte(); o = Op("rx", {r.chance(1, 10) ? (int64_t)(r.next() & 0x1FFFFFFF) : (int64_t)r.below(0x800), (int64_t)r.pick<int>({8, 8, 0, 1, 7, 9, 15}), 1}, std::vector<uint8_t>(f.d, f.d + 8)); }
         else if (c < 66) o = Op("tick", {r.pick<int64_t>({1, 1, 1, 2, 5, 10, 11, 50, 1000})});
